@@ -59,6 +59,11 @@ func Run() bool {
 }
 
 func launch(name string) {
+	// listen for the interrupt before the daemon exists, otherwise an early Done() kills the launcher
+	interrupt := make(chan os.Signal, 1)
+	signal.Notify(interrupt, os.Interrupt)
+	defer signal.Stop(interrupt)
+
 	cmd := exec.Command(os.Args[0])
 	cmd.Env = append(os.Environ(), envDaemonName+"="+name, envDaemonFlag+"=isDaemon")
 	if err := cmd.Start(); err != nil {
@@ -76,9 +81,6 @@ func launch(name string) {
 		close(finished)
 	}()
 
-	interrupt := make(chan os.Signal, 1)
-	signal.Notify(interrupt, os.Interrupt)
-	defer signal.Stop(interrupt)
 	select {
 	case <-finished:
 	case <-interrupt:
